@@ -12,6 +12,9 @@
 (* any nesting (EvalSum) and as objects that live on while further sums    *)
 (* are formed from them (StoreInit / StepStore: the step of the history    *)
 (* state machine MC_Sweep!NextHist): being values, they never change.      *)
+(* The same holds when products and add_derivers are among the steps       *)
+(* (PStoreInit / PStep, MC_Sweep!NextPHist): a.product(b) and              *)
+(* a.add_derivers(..) yield new sweeps and leave a and b as they were.     *)
 (*                                                                         *)
 (* Encoding                                                                *)
 (*   key          a string ("a", "b", ..)                                  *)
@@ -201,6 +204,79 @@ ExprOf(n, ops, sp, o) ==
     ELSE LET op == ops[o - n] IN
          Node(IF op.f = "sum" THEN sp ELSE "MultiSweep", [j \in DOMAIN op.a |-> ExprOf(n, ops, sp, op.a[j])])
 
+(* sweep.add_derivers(derivers..): a NEW sweep that is the same sweep - items, dims, constants, exclude - with     *)
+(* these derivers: Sweep(items, dims, exclude, constants).add_derivers(d..)   is Sweep(items, dims, exclude,         *)
+(* constants, d).  Claimed for a sweep that has no derivers yet (when it has, "add" admits two readings - keep      *)
+(* both / replace - and neither the property nor the tests pin one: no claim).                                      *)
+Plain(s)           == [items |-> s.items, dims |-> s.dims, consts |-> s.consts, ders |-> s.ders, excl |-> s.excl]
+AddDerivers(s, d)  == [s EXCEPT !.ders = d]
+WithoutDerivers(s) == [s EXCEPT !.ders = <<>>]
+WithoutExclude(s)  == [s EXCEPT !.excl = <<>>]
+(* the derivers may read what a combination has when they run: item keys, constants, earlier derived keys *)
+DeriversOk(s, d) ==
+    \A i \in DOMAIN d : Range(d[i].a) \subseteq AllKeys(WithoutDerivers(s)) \cup {d[j].k : j \in 1..(i - 1)}
+
+(* Sweep objects over time, continued: products and add_derivers next to sums.  A program multiplies a base sweep   *)
+(* with several others, derives from it, adds the results up - and keeps using the base sweep.  Objects 1..n are    *)
+(* the operands ss, object n+k is the result of step k.  A step [f, a, d] is                                         *)
+(*     f = "product": st[a[1]].product(st[a[2]], ..)      (arguments: single sweeps with pairwise disjoint keys)     *)
+(*     f = "derive" : st[a[1]].add_derivers(d..)            (argument: a single sweep without derivers)                *)
+(*     f = "sum"    : st[a[1]] + st[a[2]]                 (arguments: any objects)                                   *)
+(* An object is [kind, sw, combos, len].  kind = "sweep": the object is a single Sweep (an operand, a product, a     *)
+(* derived sweep) and sw says which one - THE sweep Sweep(items, dims, exclude, constants, derivers) it is           *)
+(* indistinguishable from; kind = "sum": a MultiSweep, sw = NoSweep (as a Sweep it has no items).  As before a step  *)
+(* yields a new object and changes no object that exists: in particular a.product(b) leaves a and b - their          *)
+(* constants, derivers, items, dims - as they were, and so does a.add_derivers(..).                                  *)
+NoSweep   == [items |-> <<>>, dims |-> NoDims, consts |-> <<>>, ders |-> <<>>, excl |-> <<>>]
+PObjOf(s) == [kind |-> "sweep", sw |-> Plain(s), combos |-> CombosOf(s), len |-> LenOf(s)]
+PStoreInit(ss) == [i \in DOMAIN ss |-> PObjOf(ss[i])]
+ArgSweeps(st, op) == [j \in DOMAIN op.a |-> st[op.a[j]].sw]
+(* the steps the property speaks about *)
+PStepOk(st, op) ==
+    /\ Range(op.a) \subseteq DOMAIN st
+    /\ CASE op.f = "product" ->
+               /\ Len(op.a) >= 2 /\ op.d = <<>>
+               /\ \A j \in DOMAIN op.a : st[op.a[j]].kind = "sweep"
+               /\ DisjointKeys(ArgSweeps(st, op)) /\ ~ProductDontCare(ArgSweeps(st, op))
+         [] op.f = "derive" ->
+               /\ Len(op.a) = 1 /\ op.d # <<>>
+               /\ LET x == st[op.a[1]] IN
+                  x.kind = "sweep" /\ x.sw.items # <<>> /\ x.sw.ders = <<>> /\ DeriversOk(x.sw, op.d)
+         [] op.f = "sum" -> Len(op.a) = 2 /\ op.d = <<>>
+         [] OTHER -> FALSE
+(* the store after one more step.  The product is written the way the documentation says it - the Cartesian         *)
+(* product of what the arguments enumerate, its len the product of their lens - and ALSO as one sweep (Merge);       *)
+(* LawObjHistory demands that the two agree.                                                                          *)
+PStep(st, op) ==
+    Append(st,
+        CASE op.f = "product" ->
+                [kind |-> "sweep", sw |-> Merge(ArgSweeps(st, op)),
+                 combos |-> Cart([j \in DOMAIN op.a |-> st[op.a[j]].combos]),
+                 len    |-> ProdNat([j \in DOMAIN op.a |-> st[op.a[j]].len])]
+          [] op.f = "derive" ->
+                LET d == AddDerivers(st[op.a[1]].sw, op.d) IN
+                [kind |-> "sweep", sw |-> d, combos |-> CombosOf(d), len |-> LenOf(d)]
+          [] op.f = "sum" ->
+                [kind |-> "sum", sw |-> NoSweep,
+                 combos |-> st[op.a[1]].combos \o st[op.a[2]].combos,
+                 len    |-> st[op.a[1]].len + st[op.a[2]].len])
+RECURSIVE RunPStore(_, _)
+RunPStore(st, ops) == IF ops = <<>> THEN st ELSE RunPStore(PStep(st, Head(ops)), Tail(ops))
+(* the same without the history: the expression object o denotes, over the operands only ..                          *)
+RECURSIVE PExprOf(_, _, _)
+PExprOf(n, ops, o) ==
+    IF o <= n THEN [op |-> "leaf", i |-> o, ch |-> <<>>, d |-> <<>>]
+    ELSE LET op == ops[o - n] IN [op |-> op.f, i |-> 0, ch |-> [j \in DOMAIN op.a |-> PExprOf(n, ops, op.a[j])], d |-> op.d]
+(* .. a leaf / product / derive expression as ONE sweep ..                                                            *)
+RECURSIVE SweepOfExpr(_, _)
+SweepOfExpr(e, ss) ==
+    CASE e.op = "leaf"    -> Plain(ss[e.i])
+      [] e.op = "product" -> Merge([j \in DOMAIN e.ch |-> SweepOfExpr(e.ch[j], ss)])
+      [] e.op = "derive"  -> AddDerivers(SweepOfExpr(e.ch[1], ss), e.d)
+(* .. and what an expression enumerates                                                                               *)
+RECURSIVE EvalExpr(_, _)
+EvalExpr(e, ss) == IF e.op = "sum" THEN EvalExpr(e.ch[1], ss) \o EvalExpr(e.ch[2], ss) ELSE CombosOf(SweepOfExpr(e, ss))
+
 (* sweep.filtered_sweep(keys).list(): the distinct projections onto keys (here: in order of first appearance; *)
 (* the property fixes no order).  Claimed for sweeps without constants or exclude.                            *)
 Project(c, keys) == [k \in keys |-> c[k]]
@@ -288,6 +364,25 @@ LawOrderFree(s) ==
         /\ OrderFixed(s.items, SortedGroups(s.items, s.dims))
         /\ SameBag(CombosOf(s), Combos(s.items, SortedGroups(s.items, s.dims), s.consts, s.ders, s.excl))
 
+(* L3c: add_derivers (s: a sweep without derivers): the derived sweep enumerates what s enumerates before its     *)
+(*      exclude is asked - the product of its zipped groups with ITS constants -, the derivers applied on top,     *)
+(*      then s's exclude, order kept; a constant of s stays in every combination, with its value unless an item   *)
+(*      or a deriver owns the key                                                                                  *)
+LawAddDerivers(s, d) ==
+    (ErrorOf(s) = "" /\ s.ders = <<>> /\ DeriversOk(s, d)) =>
+        LET D    == CombosOf(AddDerivers(s, d))
+            B    == CombosOf(WithoutExclude(s))
+            fin  == [p \in DOMAIN B |-> ApplyDerivers(B[p], d)]
+            kept == {p \in DOMAIN B : ~Excluded(fin[p], s.excl)}
+        IN  /\ ErrorOf(AddDerivers(s, d)) = ""
+            /\ Len(D) = Cardinality(kept) /\ LenOf(AddDerivers(s, d)) = Len(D)
+            /\ \A p \in kept : D[Cardinality({q \in kept : q <= p})] = fin[p]
+            /\ \A p \in DOMAIN D : \A i \in DOMAIN s.consts :
+                  /\ s.consts[i].k \in DOMAIN D[p]
+                  /\ (s.consts[i].k \notin KeySet(s.items) /\ \A j \in DOMAIN d : d[j].k # s.consts[i].k)
+                        => D[p][s.consts[i].k] = s.consts[i].v
+            /\ (d = <<>> => D = CombosOf(s))
+
 (* L4: len(sweep) == len(sweep.list()) *)
 LawLen(s) == ErrorOf(s) = "" => LenOf(s) = Len(CombosOf(s))
 
@@ -336,6 +431,34 @@ LawHistory(ss, ops, sp, st) ==
               /\ st[o].combos = EvalSum(e, OperandLists(ss)) /\ st[o].combos = ObjCombos(ss, st[o].leafs)
               /\ st[o].len = LenSum(e, OperandLens(ss))      /\ st[o].len = ObjLen(ss, st[o].leafs)
         /\ \A k \in 0..Len(ops) : RunStore(init, SubSeq(ops, 1, k)) = SubSeq(st, 1, n + k)
+
+(* L6d: objects over time with products and add_derivers (st = the store after the history `ops`).  EVERY object  *)
+(*      - operand, argument of an earlier step, earlier result - enumerates the expression it denotes over the      *)
+(*      operands as they were given, whatever was done with it afterwards; a single sweep is the one sweep its      *)
+(*      expression says; the newest object obeys the law of its step (L5 for a product, L3c for add_derivers,       *)
+(*      concatenation for a sum); no step changes an object that existed before it.                                  *)
+LawObjHistory(ss, ops, st) ==
+    (\A i \in DOMAIN ss : ErrorOf(ss[i]) = "") =>
+        LET n == Len(ss)  init == PStoreInit(ss) IN
+        /\ Len(st) = n + Len(ops)
+        /\ \A k \in DOMAIN ops : PStepOk(SubSeq(st, 1, n + k - 1), ops[k])
+        /\ \A o \in DOMAIN st :
+              LET e == PExprOf(n, ops, o) IN
+              /\ st[o].combos = EvalExpr(e, ss)
+              /\ st[o].len = Len(st[o].combos)
+              /\ (st[o].kind = "sweep") = (e.op # "sum")
+              /\ st[o].kind = "sweep" =>
+                    /\ st[o].sw = SweepOfExpr(e, ss) /\ ErrorOf(st[o].sw) = ""
+                    /\ st[o].combos = CombosOf(st[o].sw) /\ st[o].len = LenOf(st[o].sw) /\ LawLen(st[o].sw)
+              /\ st[o].kind = "sum" => st[o].sw = NoSweep
+        /\ ops # <<>> =>
+              LET op == ops[Len(ops)]  new == st[Len(st)]  args == ArgSweeps(st, op) IN
+              CASE op.f = "product" ->
+                      /\ LawProduct(args) /\ new.combos = Product(args) /\ new.sw = Merge(args)
+                [] op.f = "derive"  -> LawAddDerivers(args[1], op.d) /\ new.sw = AddDerivers(args[1], op.d)
+                [] op.f = "sum"     -> /\ new.combos = st[op.a[1]].combos \o st[op.a[2]].combos
+                                       /\ new.len = st[op.a[1]].len + st[op.a[2]].len
+        /\ \A k \in 0..Len(ops) : RunPStore(init, SubSeq(ops, 1, k)) = SubSeq(st, 1, n + k)
 
 (* L7: filtered = the distinct projections, each once *)
 LawFiltered(s, keys) ==
